@@ -44,10 +44,20 @@ def build_liesel_model():
     eta = lsl.Var(lsl.Calc(lambda m, x, b, zz, off: m + x @ b + 0.5 * zz + off, mu, xm, beta, z, offset), name="eta")
     y = lsl.obs(jnp.asarray(Y, dtype=jnp.float32), lsl.Dist(tfd.Normal, loc=eta, scale=sigma), name="y")
     pred = lsl.Var(lsl.Calc(lambda e: 2.0 * e + 1.0, eta), name="pred")
-    return lsl.GraphBuilder().add(y, pred, offset_dist).build_model()
+    # posterior-predictive replicate: a strong variable WITHOUT distribution (not an ancestor
+    # of any log-prob) and a cached statistic derived from it
+    y_rep = lsl.Var(jnp.asarray(Y, dtype=jnp.float32) * 0.0, name="y_rep")
+    rep_stat = lsl.Var(lsl.Calc(lambda r: jnp.sum(r) + 0.5, y_rep), name="rep_stat")
+    # a parameter transformed with a bijector CLASS whose argument is a model quantity:
+    # w = sigma * w_transformed, w ~ N(0, 1)
+    w = lsl.param(jnp.float32(0.4), lsl.Dist(tfd.Normal, loc=0.0, scale=1.0), name="w")
+    import tensorflow_probability.substrates.jax.bijectors as tfb
+
+    w.transform(tfb.Scale, scale=sigma)
+    return lsl.GraphBuilder().add(y, pred, offset_dist, rep_stat, w).build_model()
 
 
-PARAMS = ["mu", "beta", "log_sigma", "z", "offset"]
+PARAMS = ["mu", "beta", "log_sigma", "z", "offset", "y_rep", "w_transformed"]
 
 
 def param_node(p: str) -> str:
@@ -60,7 +70,10 @@ _ETA = {"eta_value", "eta_var_value", "y_log_prob", "pred_value", "pred_var_valu
 DESCENDANTS = {
     "mu": {"mu_value", "mu_var_value", "mu_log_prob"} | _ETA,
     "beta": {"beta_value", "beta_var_value", "beta_log_prob"} | _ETA,
-    "log_sigma": {"log_sigma_value", "log_sigma_var_value", "log_sigma_log_prob", "sigma_value", "sigma_var_value", "sigma_log_prob", "y_log_prob"},
+    "log_sigma": {"log_sigma_value", "log_sigma_var_value", "log_sigma_log_prob", "sigma_value", "sigma_var_value", "sigma_log_prob", "y_log_prob",
+                  "w_value", "w_var_value", "w_transformed_log_prob"},
+    "y_rep": {"y_rep_value", "y_rep_var_value", "rep_stat_value", "rep_stat_var_value"},
+    "w_transformed": {"w_transformed_value", "w_transformed_var_value", "w_transformed_log_prob", "w_value", "w_var_value"},
     "z": {"z_value", "z_var_value", "z_log_prob"} | _ETA,
     "offset": {"offset", "offset_log_prob"} | _ETA,
 }
@@ -88,13 +101,20 @@ def ref_liesel(params: dict) -> dict:
     a, b = 2.0, 1.0
     lp_sigma = a * math.log(b) - math.lgamma(a) - (a + 1) * math.log(sigma) - b / sigma
     lp_y = norm_lp(Y, eta, sigma)
+    y_rep = np.asarray(params["y_rep"], dtype=np.float64)
+    wt = float(params["w_transformed"])
+    w = sigma * wt
+    lp_wt = norm_lp(w, 0.0, 1.0) + ls  # |d w / d w_t| = sigma
     # the var-less offset dist is neither observed nor parameter: it enters log_prob only
-    prior = lp_mu + lp_beta.sum() + lp_ls + lp_z + lp_sigma
+    prior = lp_mu + lp_beta.sum() + lp_ls + lp_z + lp_sigma + lp_wt
     lik = lp_y.sum()
     return {
         "sigma_value": sigma,
         "eta_value": eta,
         "pred_value": 2.0 * eta + 1.0,
+        "rep_stat_value": float(np.sum(y_rep)) + 0.5,
+        "w_value": w,
+        "w_transformed_log_prob": lp_wt,
         "mu_log_prob": lp_mu,
         "beta_log_prob": lp_beta,
         "log_sigma_log_prob": lp_ls,
@@ -205,6 +225,14 @@ def make_kernel(spec: dict, model=None):
             return gs.MHProposal({key0: pos + step_size * 0.5 * n}, jnp.float32(0.0))
 
         return gs.MHKernel(keys, proposal, initial_step_size=spec.get("step", 0.6))
+    if t == "PPGIBBS":
+
+        def pp(key, model_state):
+            eta = model_state["eta_value"].value
+            sig = model_state["sigma_value"].value
+            return {"y_rep": eta + sig * jax.random.normal(key, jnp.shape(eta))}
+
+        return gs.GibbsKernel(["y_rep"], pp)
     if t == "GIBBS":
         import liesel.model as lsl  # noqa
 
